@@ -328,7 +328,20 @@ class Ctx:
             zs = lst.elem.pack(val, self)
             for (p, s), zv in zip(comps, zs):
                 m = self.item_map(p, s)
-                self.sheap[("item", str(s), p)] = z3.Store(m, lst.z, z3.Store(z3.Select(m, lst.z), idx, zv))
+                if getattr(self, "append_carry", False) and not z3.is_int_value(z3.simplify(idx)):
+                    # the updated row as a named array with an explicit carry-over fact triggered by reads of the OLD row: a witness
+                    # known for the old list (e.g. the Skolem constant of an existential invariant) becomes a term of the new list
+                    old_row = z3.Select(m, lst.z)
+                    row = self.fresh("row", old_row.sort())
+                    self.counter += 1
+                    k = z3.Int(f"k!cw{self.counter}")
+                    self.pc.append(row == z3.Store(old_row, idx, zv))
+                    carry = z3.ForAll([k], z3.Select(row, k) == z3.If(k == idx, zv, z3.Select(old_row, k)), patterns=[z3.Select(old_row, k)])
+                    self.pc.append(carry)
+                    self.keep_ids.add(carry.get_id())
+                    self.sheap[("item", str(s), p)] = z3.Store(m, lst.z, row)
+                else:
+                    self.sheap[("item", str(s), p)] = z3.Store(m, lst.z, z3.Store(z3.Select(m, lst.z), idx, zv))
         else:
             fn = item_fn_or_store[1]
             self.counter += 1
@@ -338,7 +351,11 @@ class Ctx:
                 new_inners = []
                 for (p, s_), t in zip(comps, terms):
                     inner = self.fresh("items", z3.ArraySort(I, s_))
-                    self.pc.append(z3.ForAll([k], z3.Select(inner, k) == t))
+                    d = z3.ForAll([k], z3.Select(inner, k) == t)
+                    self.pc.append(d)
+                    if not hasattr(self, "list_defs"):
+                        self.list_defs = {}
+                    self.list_defs.setdefault(lst.z.get_id(), []).append(d)
                     new_inners.append(inner)
             else:
                 new_inners = [z3.Lambda([k], t) for t in terms]
